@@ -470,6 +470,385 @@ Section GlobalBest.
 End GlobalBest.
 
 (* ---------------------------------------------------------------------------------------------- *)
+(* OMOPSO.run / SMPSO.run, whole methods (the generation loop `it = 0; while it < max_population_number: ...; it += 1` read
+   as `for it in range(max_population_number)` by the counting-while pass of tools/py2coq_swarm.py): every operator call
+   is an observable effect; the result is (problem.individuals afterwards, the event log).  The log equals
+   swarm_run_spec, DEFINED HERE (Model/Swarm.v has no run function: the C18 theorems are about the four update methods,
+   and the harness observes every call of them in situ): initialisation, then per generation
+       select, update_velocity, update_position, turbulence, evaluate, update_particle_best, update_global_best,
+       then per particle: population_id = it + 1, (append to problem.individuals,) sync_individual
+   on the list select() answered, and sync_all at the end.  So in every generation the personal bests are updated AFTER
+   the evaluation of the same particles, the leaders archive (Swarm.generation) after the personal bests, the
+   position after the velocity (swarm_generation_order).
+     RNew v       IndividualSwarm(v) / Individual(v) is constructed (o_new: the object, an arbitrary answer)
+     RSetPop x k  x.population_id = k (an attribute store, logged as an event)
+   Not translated (pinned by text, named in the generated file): the time stamps, the two log lines, OMOPSO's two
+   `self.*_mutator = ...` assignments. *)
+Section Run.
+  Context {T ind : Type}.
+
+  Inductive rev : Type :=
+  | RGenInit (n : nat) | RGenerate | RNew (v : list T) | RSetPop (x : ind) (k : nat)
+  | REvaluate (xs : list ind) | RInitVel (xs : list ind) | RInitPbest (xs : list ind) | RGlobalBest (xs : list ind)
+  | RSyncInd (x : ind) | RSelect (xs : list ind) | RVelocity (xs : list ind) | RPosition (xs : list ind)
+  | RTurbulence (xs : list ind) (it : nat) | RPBest (xs : list ind) | RSyncAll.
+
+  Variables (o_gen : list rev -> list (list T)) (o_new : list rev -> list T -> ind) (o_select : list rev -> list ind -> list ind).
+
+  Fixpoint new_inds (vs : list (list T)) (log : list rev) : list ind :=
+    match vs with [] => [] | v :: vs' => o_new (log ++ [RNew v]) v :: new_inds vs' (log ++ [RNew v]) end.
+  Fixpoint new_log (vs : list (list T)) (log : list rev) : list rev :=
+    match vs with [] => log | v :: vs' => new_log vs' (log ++ [RNew v]) end.
+
+  (* one generation on the particles `offs` (what selector.select answered) *)
+  Definition generation_events (it : nat) (offs : list ind) : list rev :=
+    [RVelocity offs; RPosition offs; RTurbulence offs it; REvaluate offs; RPBest offs; RGlobalBest offs]
+    ++ flat_map (fun x => [RSetPop x (it + 1); RSyncInd x]) offs.
+
+  Fixpoint generations (its : list nat) (inds pop : list ind) (log : list rev) : list ind * list ind * list rev :=
+    match its with
+    | [] => (inds, pop, log)
+    | it :: its' =>
+        let log1 := log ++ [RSelect inds] in
+        let offs := o_select log1 inds in
+        generations its' offs (pop ++ offs) (log1 ++ generation_events it offs)
+    end.
+
+  Definition init_events (with_velocity : bool) (inds : list ind) : list rev :=
+    map (fun x => RSetPop x 0) inds
+    ++ [REvaluate inds] ++ (if with_velocity then [RInitVel inds] else []) ++ [RInitPbest inds; RGlobalBest inds]
+    ++ map RSyncInd inds.
+
+  Definition swarm_run_spec (with_velocity : bool) (pop : list ind) (N size : nat) : list ind * list rev :=
+    let log0 := [RGenInit size; RGenerate] in
+    let vs := o_gen log0 in
+    let inds := new_inds vs log0 in
+    let '(_, pop', log') := generations (seq 0 N) inds (pop ++ inds) (new_log vs log0 ++ init_events with_velocity inds) in
+    (pop', log' ++ [RSyncAll]).
+
+  (* the order inside one generation, spelled out *)
+  Lemma swarm_generation_order : forall it offs, exists tail,
+    generation_events it offs = RVelocity offs :: RPosition offs :: RTurbulence offs it :: REvaluate offs :: RPBest offs :: RGlobalBest offs :: tail.
+  Proof. intros. eexists. reflexivity. Qed.
+
+  (* ---- OMOPSO.run ---- *)
+  Section OmopsoRun.
+    Notation b1 := (@omopso_run_l1_body T ind rev RNew o_new).
+    Notation B1 := (@Build_omopso_run_l1_st ind rev).
+    Notation b2 := (@omopso_run_l2_body ind rev RSetPop).
+    Notation B2 := (@Build_omopso_run_l2_st ind rev).
+    Notation b3 := (@omopso_run_l3_body ind rev RSyncInd).
+    Notation B3 := (@Build_omopso_run_l3_st ind rev).
+    Notation b4 := (@omopso_run_l4_body ind rev REvaluate RGlobalBest RSyncInd RSelect RVelocity RPosition RTurbulence RPBest RSetPop o_select).
+    Notation B4 := (@Build_omopso_run_l4_st ind rev).
+    Notation b5 := (@omopso_run_l5_body ind rev RSyncInd RSetPop).
+    Notation B5 := (@Build_omopso_run_l5_st ind rev).
+
+    Lemma omopso_runloop1 : forall vs acc log,
+      fold_left b1 vs (B1 acc log None) = B1 (acc ++ new_inds vs log) (new_log vs log) None.
+    Proof.
+      induction vs as [|v vs IH]; intros acc log; cbn [fold_left new_inds new_log].
+      - now rewrite app_nil_r.
+      - unfold omopso_run_l1_body at 2. cbn [omopso_run_l1_ret omopso_run_l1_v1 omopso_run_l1_v2].
+        rewrite IH. now rewrite <- app_assoc.
+    Qed.
+
+    Lemma omopso_runloop2 : forall xs pop log,
+      fold_left b2 xs (B2 pop log None) = B2 (pop ++ xs) (log ++ map (fun x => RSetPop x 0) xs) None.
+    Proof.
+      induction xs as [|x xs IH]; intros pop log; cbn [fold_left map].
+      - now rewrite !app_nil_r.
+      - unfold omopso_run_l2_body at 2. cbn [omopso_run_l2_ret omopso_run_l2_v1 omopso_run_l2_v2].
+        rewrite IH. now rewrite <- !app_assoc.
+    Qed.
+
+    Lemma omopso_runloop3 : forall xs log, fold_left b3 xs (B3 log None) = B3 (log ++ map RSyncInd xs) None.
+    Proof.
+      induction xs as [|x xs IH]; intros log; cbn [fold_left map].
+      - now rewrite app_nil_r.
+      - unfold omopso_run_l3_body at 2. cbn [omopso_run_l3_ret omopso_run_l3_v1]. rewrite IH. now rewrite <- app_assoc.
+    Qed.
+
+    Lemma omopso_runloop5 : forall it xs pop log,
+      fold_left (b5 it) xs (B5 pop log None) = B5 (pop ++ xs) (log ++ flat_map (fun x => [RSetPop x (it + 1); RSyncInd x]) xs) None.
+    Proof.
+      intros it. induction xs as [|x xs IH]; intros pop log; cbn [fold_left flat_map].
+      - now rewrite !app_nil_r.
+      - unfold omopso_run_l5_body at 2. cbn [omopso_run_l5_ret omopso_run_l5_v1 omopso_run_l5_v2].
+        rewrite ?(Nat.add_comm 1 it).                   (* `1 + it` is `it + 1` *)
+        rewrite IH. rewrite <- !app_assoc. reflexivity.
+    Qed.
+
+    Lemma omopso_runloop4 : forall its inds pop log,
+      fold_left b4 its (B4 inds pop log None) =
+      let '(inds', pop', log') := generations its inds pop log in B4 inds' pop' log' None.
+    Proof.
+      induction its as [|it its IH]; intros inds pop log; cbn [fold_left generations]; [reflexivity|].
+      unfold omopso_run_l4_body at 2. cbn [omopso_run_l4_ret omopso_run_l4_v1 omopso_run_l4_v2 omopso_run_l4_v3].
+      unfold omopso_run_l5_run. rewrite omopso_runloop5. unfold omopso_run_l5_after. cbn [omopso_run_l5_ret omopso_run_l5_v1 omopso_run_l5_v2].
+      rewrite IH. unfold generation_events. rewrite <- !app_assoc. reflexivity.
+    Qed.
+
+    (* the whole method: the calls it makes, in order, for any number of generations, any swarm size and any answers of
+       the generator, the constructor and the selector; and what it appends to problem.individuals *)
+    Theorem omopso_run_gen_eq_model : forall (pop : list ind) (N size : nat),
+      omopso_run_gen RGenInit RGenerate RNew REvaluate RInitPbest RGlobalBest RSyncInd RSelect RVelocity RPosition RTurbulence RPBest
+        RSyncAll RSetPop o_gen o_new o_select pop N size =
+      swarm_run_spec false pop N size.
+    Proof.
+      intros pop N size. unfold omopso_run_gen, swarm_run_spec. cbn [app].
+      unfold omopso_run_l1_run. rewrite omopso_runloop1. unfold omopso_run_l1_after. cbn [omopso_run_l1_ret omopso_run_l1_v1 omopso_run_l1_v2 app].
+      unfold omopso_run_l2_run. rewrite omopso_runloop2. unfold omopso_run_l2_after. cbn [omopso_run_l2_ret omopso_run_l2_v1 omopso_run_l2_v2].
+      unfold omopso_run_l3_run. rewrite omopso_runloop3. unfold omopso_run_l3_after. cbn [omopso_run_l3_ret omopso_run_l3_v1].
+      unfold omopso_run_l4_run. rewrite omopso_runloop4. unfold init_events. cbn [app].
+      rewrite <- !app_assoc. cbn [app].
+      destruct (generations _ _ _ _) as [[inds' pop'] log']. unfold omopso_run_l4_after.
+      cbn [omopso_run_l4_ret omopso_run_l4_v1 omopso_run_l4_v2 omopso_run_l4_v3]. reflexivity.
+    Qed.
+  End OmopsoRun.
+
+  (* ---- SMPSO.run ---- *)
+  Section SmpsoRun.
+    Notation b1 := (@smpso_run_l1_body T ind rev RNew o_new).
+    Notation B1 := (@Build_smpso_run_l1_st ind rev).
+    Notation b2 := (@smpso_run_l2_body ind rev RSetPop).
+    Notation B2 := (@Build_smpso_run_l2_st ind rev).
+    Notation b3 := (@smpso_run_l3_body ind rev RSyncInd).
+    Notation B3 := (@Build_smpso_run_l3_st ind rev).
+    Notation b4 := (@smpso_run_l4_body ind rev REvaluate RGlobalBest RSyncInd RSelect RVelocity RPosition RTurbulence RPBest RSetPop o_select).
+    Notation B4 := (@Build_smpso_run_l4_st ind rev).
+    Notation b5 := (@smpso_run_l5_body ind rev RSyncInd RSetPop).
+    Notation B5 := (@Build_smpso_run_l5_st ind rev).
+
+    Lemma smpso_runloop1 : forall vs acc log,
+      fold_left b1 vs (B1 acc log None) = B1 (acc ++ new_inds vs log) (new_log vs log) None.
+    Proof.
+      induction vs as [|v vs IH]; intros acc log; cbn [fold_left new_inds new_log].
+      - now rewrite app_nil_r.
+      - unfold smpso_run_l1_body at 2. cbn [smpso_run_l1_ret smpso_run_l1_v1 smpso_run_l1_v2].
+        rewrite IH. now rewrite <- app_assoc.
+    Qed.
+
+    Lemma smpso_runloop2 : forall xs pop log,
+      fold_left b2 xs (B2 pop log None) = B2 (pop ++ xs) (log ++ map (fun x => RSetPop x 0) xs) None.
+    Proof.
+      induction xs as [|x xs IH]; intros pop log; cbn [fold_left map].
+      - now rewrite !app_nil_r.
+      - unfold smpso_run_l2_body at 2. cbn [smpso_run_l2_ret smpso_run_l2_v1 smpso_run_l2_v2].
+        rewrite IH. now rewrite <- !app_assoc.
+    Qed.
+
+    Lemma smpso_runloop3 : forall xs log, fold_left b3 xs (B3 log None) = B3 (log ++ map RSyncInd xs) None.
+    Proof.
+      induction xs as [|x xs IH]; intros log; cbn [fold_left map].
+      - now rewrite app_nil_r.
+      - unfold smpso_run_l3_body at 2. cbn [smpso_run_l3_ret smpso_run_l3_v1]. rewrite IH. now rewrite <- app_assoc.
+    Qed.
+
+    Lemma smpso_runloop5 : forall it xs pop log,
+      fold_left (b5 it) xs (B5 pop log None) = B5 (pop ++ xs) (log ++ flat_map (fun x => [RSetPop x (it + 1); RSyncInd x]) xs) None.
+    Proof.
+      intros it. induction xs as [|x xs IH]; intros pop log; cbn [fold_left flat_map].
+      - now rewrite !app_nil_r.
+      - unfold smpso_run_l5_body at 2. cbn [smpso_run_l5_ret smpso_run_l5_v1 smpso_run_l5_v2].
+        rewrite ?(Nat.add_comm 1 it).                   (* `1 + it` is `it + 1` *)
+        rewrite IH. rewrite <- !app_assoc. reflexivity.
+    Qed.
+
+    Lemma smpso_runloop4 : forall its inds pop log,
+      fold_left b4 its (B4 inds pop log None) =
+      let '(inds', pop', log') := generations its inds pop log in B4 inds' pop' log' None.
+    Proof.
+      induction its as [|it its IH]; intros inds pop log; cbn [fold_left generations]; [reflexivity|].
+      unfold smpso_run_l4_body at 2. cbn [smpso_run_l4_ret smpso_run_l4_v1 smpso_run_l4_v2 smpso_run_l4_v3].
+      unfold smpso_run_l5_run. rewrite smpso_runloop5. unfold smpso_run_l5_after. cbn [smpso_run_l5_ret smpso_run_l5_v1 smpso_run_l5_v2].
+      rewrite IH. unfold generation_events. rewrite <- !app_assoc. reflexivity.
+    Qed.
+
+    (* the whole method: the calls it makes, in order, for any number of generations, any swarm size and any answers of
+       the generator, the constructor and the selector; and what it appends to problem.individuals *)
+    Theorem smpso_run_gen_eq_model : forall (pop : list ind) (N size : nat),
+      smpso_run_gen RGenInit RGenerate RNew REvaluate RInitVel RInitPbest RGlobalBest RSyncInd RSelect RVelocity RPosition RTurbulence RPBest
+        RSyncAll RSetPop o_gen o_new o_select pop N size =
+      swarm_run_spec true pop N size.
+    Proof.
+      intros pop N size. unfold smpso_run_gen, swarm_run_spec. cbn [app].
+      unfold smpso_run_l1_run. rewrite smpso_runloop1. unfold smpso_run_l1_after. cbn [smpso_run_l1_ret smpso_run_l1_v1 smpso_run_l1_v2 app].
+      unfold smpso_run_l2_run. rewrite smpso_runloop2. unfold smpso_run_l2_after. cbn [smpso_run_l2_ret smpso_run_l2_v1 smpso_run_l2_v2].
+      unfold smpso_run_l3_run. rewrite smpso_runloop3. unfold smpso_run_l3_after. cbn [smpso_run_l3_ret smpso_run_l3_v1].
+      unfold smpso_run_l4_run. rewrite smpso_runloop4. unfold init_events. cbn [app].
+      rewrite <- !app_assoc. cbn [app].
+      destruct (generations _ _ _ _) as [[inds' pop'] log']. unfold smpso_run_l4_after.
+      cbn [smpso_run_l4_ret smpso_run_l4_v1 smpso_run_l4_v2 smpso_run_l4_v3]. reflexivity.
+    Qed.
+  End SmpsoRun.
+End Run.
+
+(* ---------------------------------------------------------------------------------------------- *)
+(* PSOGA.run, the whole method.  On top of the reading of OMOPSO / SMPSO.run:
+     ind                 record type with the fields vector, features - both VOLATILE (update_position moves the vector
+                         in place, a later generation may have re-pointed features): the accessors take the event log
+     set_feat x f        `offspring1.features = first_selected.features` on the NEW object offspring1 (a functional
+                         update of an object nobody else holds yet: tools/py2coq_eff.py `new`)
+     PCopy xs            self.offspring_selector.select(xs); DECLARED to return a new list object (the two offspring are
+                         appended to it in place)
+     PTour xs            self.selector.select(xs): one individual (binary tournament, C03)
+     PCross a b          self.crossover.cross(a, b): a sequence of which the first two items are taken (None = fewer)
+     PMutate v           self.mutator.mutate(v)
+   The log equals psoga_run_spec (defined here): per generation
+     copy-select, update_velocity, update_position, evaluate, two tournaments, cross, two mutations, two constructions,
+     features shared with the selected parents, both appended, evaluate, update_particle_best, update_global_best,
+     then per particle population_id / problem.individuals / sync_individual. *)
+Section RunPsoga.
+  Context {T FEAT ind : Type}.
+
+  Inductive pev : Type :=
+  | PGenInit (n : nat) | PGenerate | PNew (v : list T) | PSetPop (x : ind) (k : nat)
+  | PEvaluate (xs : list ind) | PInitVel (xs : list ind) | PInitPbest (xs : list ind) | PGlobalBest (xs : list ind)
+  | PSyncInd (x : ind) | PCopy (xs : list ind) | PTour (xs : list ind) | PCross (a b : list T) | PMutate (v : list T)
+  | PVelocity (xs : list ind) | PPosition (xs : list ind) | PPBest (xs : list ind) | PSyncAll.
+
+  Variables (vec : list pev -> ind -> list T) (feat : list pev -> ind -> FEAT) (set_feat : ind -> FEAT -> ind).
+  Variables (o_gen : list pev -> list (list T)) (o_new : list pev -> list T -> ind) (o_copy : list pev -> list ind -> list ind)
+            (o_tour : list pev -> list ind -> ind) (o_cross : list pev -> list T -> list T -> list (list T))
+            (o_mut : list pev -> list T -> list T).
+
+  Fixpoint pnew_inds (vs : list (list T)) (log : list pev) : list ind :=
+    match vs with [] => [] | v :: vs' => o_new (log ++ [PNew v]) v :: pnew_inds vs' (log ++ [PNew v]) end.
+  Fixpoint pnew_log (vs : list (list T)) (log : list pev) : list pev :=
+    match vs with [] => log | v :: vs' => pnew_log vs' (log ++ [PNew v]) end.
+
+  Definition per_particle (k : nat) (xs : list ind) : list pev := flat_map (fun x => [PSetPop x k; PSyncInd x]) xs.
+
+  (* one generation: (the new swarm, problem.individuals, the log); None = cross answered fewer than two vectors *)
+  Definition psoga_generation (it : nat) (inds pop : list ind) (log : list pev) : option (list ind * list ind * list pev) :=
+    let log := log ++ [PCopy inds] in
+    let offs := o_copy log inds in
+    let log := ((log ++ [PVelocity offs]) ++ [PPosition offs]) ++ [PEvaluate offs] in
+    let log := log ++ [PTour offs] in
+    let first := o_tour log offs in
+    let log := log ++ [PTour offs] in
+    let second := o_tour log offs in
+    let log := log ++ [PCross (vec log first) (vec log second)] in
+    let pair := o_cross log (vec log first) (vec log second) in
+    match nth_error pair 0, nth_error pair 1 with
+    | Some v1, Some v2 =>
+        let log := log ++ [PMutate v1] in
+        let v1 := o_mut log v1 in
+        let log := log ++ [PMutate v2] in
+        let v2 := o_mut log v2 in
+        let log := log ++ [PNew v1] in
+        let c1 := o_new log v1 in
+        let log := log ++ [PNew v2] in
+        let c2 := o_new log v2 in
+        let c1 := set_feat c1 (feat log first) in
+        let c2 := set_feat c2 (feat log second) in
+        let offs := (offs ++ [c1]) ++ [c2] in
+        let log := ((log ++ [PEvaluate offs]) ++ [PPBest offs]) ++ [PGlobalBest offs] in
+        Some (offs, pop ++ offs, log ++ per_particle (it + 1) offs)
+    | _, _ => None
+    end.
+
+  Fixpoint psoga_generations (its : list nat) (inds pop : list ind) (log : list pev) : option (list ind * list ind * list pev) :=
+    match its with
+    | [] => Some (inds, pop, log)
+    | it :: its' =>
+        match psoga_generation it inds pop log with
+        | Some (inds', pop', log') => psoga_generations its' inds' pop' log'
+        | None => None
+        end
+    end.
+
+  Definition psoga_run_spec (pop : list ind) (N size : nat) : option (list ind * list pev) :=
+    let log0 := [PGenInit size; PGenerate] in
+    let vs := o_gen log0 in
+    let inds := pnew_inds vs log0 in
+    let log1 := pnew_log vs log0 ++ per_particle 0 inds in
+    let log2 := (((log1 ++ [PEvaluate inds]) ++ [PInitVel inds]) ++ [PInitPbest inds]) ++ [PGlobalBest inds] in
+    match psoga_generations (seq 0 N) inds (pop ++ inds) log2 with
+    | Some (_, pop', log') => Some (pop', log' ++ [PSyncAll])
+    | None => None
+    end.
+
+  Notation b1 := (@psoga_run_l1_body T pev ind PNew o_new).
+  Notation B1 := (@Build_psoga_run_l1_st pev ind).
+  Notation b2 := (@psoga_run_l2_body pev ind PSyncInd PSetPop).
+  Notation B2 := (@Build_psoga_run_l2_st pev ind).
+  Notation b3 := (@psoga_run_l3_body T FEAT pev ind vec feat set_feat PNew PEvaluate PGlobalBest PSyncInd PCopy PTour PCross PMutate
+                    PVelocity PPosition PPBest PSetPop o_new o_copy o_tour o_cross o_mut).
+  Notation B3 := (@Build_psoga_run_l3_st pev ind).
+  Notation b4 := (@psoga_run_l4_body pev ind PSyncInd PSetPop).
+  Notation B4 := (@Build_psoga_run_l4_st pev ind).
+
+  Lemma psoga_runloop1 : forall vs acc log,
+    fold_left b1 vs (B1 acc log None) = B1 (acc ++ pnew_inds vs log) (pnew_log vs log) None.
+  Proof.
+    induction vs as [|v vs IH]; intros acc log; cbn [fold_left pnew_inds pnew_log].
+    - now rewrite app_nil_r.
+    - unfold psoga_run_l1_body at 2. cbn [psoga_run_l1_ret psoga_run_l1_v1 psoga_run_l1_v2].
+      rewrite IH. now rewrite <- app_assoc.
+  Qed.
+
+  Lemma psoga_runloop2 : forall xs pop log,
+    fold_left b2 xs (B2 pop log None) = B2 (pop ++ xs) (log ++ per_particle 0 xs) None.
+  Proof.
+    unfold per_particle. induction xs as [|x xs IH]; intros pop log; cbn [fold_left flat_map].
+    - now rewrite !app_nil_r.
+    - unfold psoga_run_l2_body at 2. cbn [psoga_run_l2_ret psoga_run_l2_v1 psoga_run_l2_v2].
+      rewrite IH. rewrite <- !app_assoc. reflexivity.
+  Qed.
+
+  Lemma psoga_runloop4 : forall it xs pop log,
+    fold_left (b4 it) xs (B4 pop log None) = B4 (pop ++ xs) (log ++ per_particle (it + 1) xs) None.
+  Proof.
+    unfold per_particle. intros it. induction xs as [|x xs IH]; intros pop log; cbn [fold_left flat_map].
+    - now rewrite !app_nil_r.
+    - unfold psoga_run_l4_body at 2. cbn [psoga_run_l4_ret psoga_run_l4_v1 psoga_run_l4_v2].
+      rewrite ?(Nat.add_comm 1 it).
+      rewrite IH. rewrite <- !app_assoc. reflexivity.
+  Qed.
+
+  Lemma psoga_stop3 : forall l st, psoga_run_l3_ret st <> None -> fold_left b3 l st = st.
+  Proof.
+    apply (fold_left_stop _ (fun st => psoga_run_l3_ret st <> None)).
+    intros st x Hs. unfold psoga_run_l3_body. destruct (psoga_run_l3_ret st); congruence.
+  Qed.
+
+  Lemma psoga_runloop3 : forall its inds pop log,
+    match psoga_generations its inds pop log with
+    | Some (inds', pop', log') => fold_left b3 its (B3 inds pop log None) = B3 inds' pop' log' None
+    | None => psoga_run_l3_ret (fold_left b3 its (B3 inds pop log None)) = Some None
+    end.
+  Proof.
+    induction its as [|it its IH]; intros inds pop log; cbn [fold_left psoga_generations]; [reflexivity|].
+    match goal with |- context [fold_left ?f its (?f ?s it)] => set (F := fold_left f its) end.
+    unfold psoga_run_l3_body. cbn [psoga_run_l3_ret psoga_run_l3_v1 psoga_run_l3_v2 psoga_run_l3_v3].
+    unfold psoga_generation.
+    match goal with |- context [nth_error ?p 0] => generalize p; intros pair end.
+    destruct (nth_error pair 0) as [v1|]; [|subst F; rewrite psoga_stop3 by (cbn; discriminate); reflexivity].
+    destruct (nth_error pair 1) as [v2|]; [|subst F; rewrite psoga_stop3 by (cbn; discriminate); reflexivity].
+    unfold psoga_run_l4_run. rewrite psoga_runloop4. unfold psoga_run_l4_after. cbn [psoga_run_l4_ret psoga_run_l4_v1 psoga_run_l4_v2].
+    subst F. apply IH.
+  Qed.
+
+  Theorem psoga_run_gen_eq_model : forall (pop : list ind) (N size : nat),
+    psoga_run_gen vec feat set_feat PGenInit PGenerate PNew PEvaluate PInitVel PInitPbest PGlobalBest PSyncInd PCopy PTour PCross PMutate
+      PVelocity PPosition PPBest PSyncAll PSetPop o_gen o_new o_copy o_tour o_cross o_mut pop N size =
+    psoga_run_spec pop N size.
+  Proof.
+    intros pop N size. unfold psoga_run_gen, psoga_run_spec. cbn [app].
+    unfold psoga_run_l1_run. rewrite psoga_runloop1. unfold psoga_run_l1_after. cbn [psoga_run_l1_ret psoga_run_l1_v1 psoga_run_l1_v2 app].
+    unfold psoga_run_l2_run. rewrite psoga_runloop2. unfold psoga_run_l2_after. cbn [psoga_run_l2_ret psoga_run_l2_v1 psoga_run_l2_v2].
+    unfold psoga_run_l3_run.
+    match goal with |- context [fold_left _ (seq 0 N) (B3 ?i ?p ?l None)] => pose proof (psoga_runloop3 (seq 0 N) i p l) as H end.
+    destruct (psoga_generations _ _ _ _) as [[[inds' pop'] log']|].
+    - rewrite H. reflexivity.
+    - unfold psoga_run_l3_after. rewrite H. reflexivity.
+  Qed.
+
+End RunPsoga.
+
+(* ---------------------------------------------------------------------------------------------- *)
 (* the binary64 instances (they pin the operators and the literals 0, 2 and round(., 1)) against the instance
    the executable driver Run/C18Run.v runs *)
 From Coq Require Import Floats.
